@@ -12,6 +12,19 @@ import (
 	"golang.org/x/tools/go/ssa"
 )
 
+// IndV is an integer that is 1 when C holds and 0 when it does not (the results of
+// crypto/subtle.ConstantTimeCompare / ConstantTimeByteEq / ConstantTimeEq).
+type IndV struct{ C *Cond }
+
+func (c IndV) String() string { return fmt.Sprintf("ind(%v)", BoolV{C: c.C}) }
+
+// LimbsV is the slice (*big.Int).Bits() returns: it shares the memory of that big.Int; what
+// it holds is not modelled (reads are unknown), a write through it makes the integer unknown
+// and nothing else.
+type LimbsV struct{ Of *Obj }
+
+func (l LimbsV) String() string { return fmt.Sprintf("limbs of big.Int obj%d", l.Of.ID) }
+
 // CmpV is the result of (*big.Int).Cmp.
 type CmpV struct{ A, B BigC }
 
@@ -154,11 +167,145 @@ func (e *Eval) call(fr *frame, x *ssa.Call, st State) AV {
 func (e *Eval) stackHasLoop() bool { return len(e.activeLoops) > 0 }
 
 func (e *Eval) record(fr *frame, x ssa.Instruction, callee string, recv AV, args []AV, res AV, st State) {
+	// a window into a buffer is recorded with what it holds now, at the call
+	for i, a := range args {
+		if b, ok := a.(BytesV); ok && b.Obj == nil && b.WinOf != nil && b.WinConst {
+			if i >= 0 {
+				cp := append([]AV{}, args...)
+				for j, aj := range cp {
+					if bj, ok := aj.(BytesV); ok && bj.Obj == nil && bj.WinOf != nil && bj.WinConst {
+						cp[j] = e.resolveBytes(bj, st)
+					}
+				}
+				args = cp
+			}
+			break
+		}
+	}
 	e.Calls = append(e.Calls, CallRec{Callee: callee, Instr: x, Fn: fr.fn, Recv: recv, Args: args, Res: res, InLoop: len(e.activeLoops) > 0, State: st.clone()})
 }
 
 // resolveBytes gives the current content of a byte-slice value (looking through buffer objects).
+// writeWindow replaces the content of the constant window b by the n = b.WinN byte big-endian
+// value src (ok == false: src is not known); false if the buffer could not be updated exactly
+// (it is then unknown).
+func (e *Eval) writeWindow(fr *frame, st State, b BytesV, src Layout, ok bool, why string) bool {
+	if b.WinOf == nil {
+		return false
+	}
+	if bc, isBuf := st[b.WinOf].(BufC); isBuf && ok && b.WinConst {
+		cur := bc.B
+		if cur.LenKnown && cur.Len.Const() && cur.HasVal && !cur.Min && cur.Pending == nil {
+			if l, okw := WriteBytes(cur.Val, cur.Len.A, b.WinOff, b.WinN, src); okw {
+				n := cur
+				n.Val, n.Src, n.Str, n.CopyOf = l, why, nil, nil
+				e.setContent(fr, st, b.WinOf, BufC{n})
+				return true
+			}
+		}
+	}
+	if bc, isBuf := st[b.WinOf].(BufC); isBuf && bc.B.LenKnown {
+		// the length of the buffer does not change
+		e.setContent(fr, st, b.WinOf, BufC{BytesV{LenKnown: true, Len: bc.B.Len, Src: "⊤: " + why + " into a sub-slice"}})
+		return false
+	}
+	e.setContent(fr, st, b.WinOf, topContent(b.WinOf, why+" into a sub-slice"))
+	return false
+}
+
+// constIntMember evaluates slices.Contains(s, v) / slices.Index(s, v) for a slice whose elements
+// are known integer constants: exactly when v is a constant, and for a range when every
+// value of the range gives the same answer (Contains only).
+func (e *Eval) constIntMember(s, v AV, st State, index bool) (AV, bool) {
+	var elems []AV
+	switch sv := s.(type) {
+	case SliceV:
+		vc, ok := st[sv.O].(VecC)
+		if !ok || vc.Top != "" {
+			return nil, false
+		}
+		elems = vc.Elems
+	case VecV:
+		elems = sv.Elems
+	default:
+		return nil, false
+	}
+	vals := make([]int64, len(elems))
+	for i, el := range elems {
+		iv, ok := el.(IntV)
+		c, okc := iv.Const()
+		if !ok || !okc {
+			return nil, false
+		}
+		vals[i] = c
+	}
+	iv, ok := v.(IntV)
+	if !ok {
+		return nil, false
+	}
+	if c, ok := iv.Const(); ok {
+		for i, x := range vals {
+			if x == c {
+				if index {
+					return CInt(int64(i)), true
+				}
+				return KBool(true), true
+			}
+		}
+		if index {
+			return CInt(-1), true
+		}
+		return KBool(false), true
+	}
+	if lo, hi, ok := iv.Bounds(0); ok && !index {
+		any := false
+		for _, x := range vals {
+			if x >= lo && x <= hi {
+				any = true
+			}
+		}
+		if !any {
+			return KBool(false), true
+		}
+	}
+	return nil, false
+}
+
+// bytesEqCond is the condition "x and y are equal byte slices": a comparison of two bit
+// layouts when both contents are known with the same constant length; nil when the lengths
+// are known to differ (never equal); an opaque condition otherwise.
+func (e *Eval) bytesEqCond(x, y AV, st State) *Cond {
+	bx, okx := x.(BytesV)
+	by, oky := y.(BytesV)
+	opaque := &Cond{Kind: "other", Desc: "equality of " + shortAV(x) + " and " + shortAV(y)}
+	if !okx || !oky {
+		return opaque
+	}
+	bx, by = e.resolveBytes(bx, st), e.resolveBytes(by, st)
+	if bx.LenKnown && by.LenKnown && bx.Len.Const() && by.Len.Const() && !bx.Min && !by.Min {
+		if bx.Len.A != by.Len.A {
+			return nil
+		}
+		if bx.HasVal && by.HasVal {
+			return &Cond{Kind: "intcmp", Op: token.EQL, A: IntV{Kind: ikBits, Bits: bx.Val}, B: IntV{Kind: ikBits, Bits: by.Val}}
+		}
+	}
+	return opaque
+}
+
 func (e *Eval) resolveBytes(b BytesV, st State) BytesV {
+	if b.Obj == nil && b.WinOf != nil && b.WinConst {
+		r := BytesV{LenKnown: true, Len: K(b.WinN), WinOf: b.WinOf, WinConst: true, WinOff: b.WinOff, WinN: b.WinN, Src: "⊤: window into a buffer whose content is not known"}
+		if bc, ok := st[b.WinOf].(BufC); ok {
+			cur := bc.B
+			if cur.LenKnown && cur.Len.Const() && cur.HasVal && !cur.Min && cur.Pending == nil && b.WinOff >= 0 && b.WinOff+b.WinN <= cur.Len.A {
+				if v, ok := cur.Val.Slice(8*(cur.Len.A-b.WinOff-b.WinN), 8*b.WinN); ok {
+					r.HasVal, r.Val, r.Src = true, v, cur.Src
+				}
+			}
+		}
+		return r
+	}
 	if b.Obj != nil {
 		if bc, ok := st[b.Obj].(BufC); ok {
 			r := bc.B
@@ -224,6 +371,31 @@ func (e *Eval) builtin(fr *frame, x *ssa.Call, name string, args []AV, st State)
 							e.setContent(fr, st, d.WinOf, BufC{fixed})
 							done = true
 						}
+					}
+				}
+				if !done && d.WinConst {
+					// copy(buf[a:b], src): min(b-a, len(src)) bytes replaced from offset a on
+					src, _ := args[1].(BytesV)
+					src = e.resolveBytes(src, st)
+					if src.LenKnown && src.Len.Const() && src.HasVal && !src.Min && src.Pending == nil && fr.loop == nil {
+						n := src.Len.A
+						val := src.Val
+						okv := true
+						if n > d.WinN {
+							// only the first WinN bytes of the source fit
+							val, okv = src.Val.Slice(8*(n-d.WinN), 8*d.WinN)
+							n = d.WinN
+						}
+						if okv {
+							w := d
+							w.WinN = n
+							e.writeWindow(fr, st, w, val, true, "copy")
+							done = true
+						}
+					}
+					if !done {
+						e.writeWindow(fr, st, d, nil, false, "copy")
+						done = true
 					}
 				}
 				if !done {
@@ -417,6 +589,13 @@ func (e *Eval) invoke(fr *frame, x *ssa.Call, recv AV, method string, args []AV,
 			if hc.Top != "" || !isNil {
 				return BytesV{Src: "⊤: digest of unknown input"}
 			}
+			// Sum(nil) allocates its result: a buffer of its own (it may be sliced, wiped, …)
+			if d, ok := e.digest(h.O.Note, hc.Writes).(BytesV); ok {
+				o := e.newObj(okBuf, x, "digest returned by Sum")
+				e.setContentFresh(st, o, BufC{d})
+				d.Obj = o
+				return d
+			}
 			return e.digest(h.O.Note, hc.Writes)
 		case "Reset":
 			e.setContent(fr, st, h.O, HashC{})
@@ -442,7 +621,10 @@ func (e *Eval) invoke(fr *frame, x *ssa.Call, recv AV, method string, args []AV,
 	return e.topOf(x.Type(), "invoke "+method)
 }
 
-func stripObj(b BytesV) BytesV { b.Obj = nil; return b }
+func stripObj(b BytesV) BytesV {
+	b.Obj, b.WinOf, b.WinLo, b.WinConst, b.WinOff, b.WinN = nil, nil, nil, false, 0, 0
+	return b
+}
 
 // DigestInfo describes a digest symbol.
 type DigestInfo struct {
@@ -489,6 +671,12 @@ func (e *Eval) model(fr *frame, x *ssa.Call, callee *ssa.Function, args []AV, st
 	if strings.HasPrefix(name, "(*math/big.Int).") {
 		return ret(e.bigMethod(fr, x, callee.Name(), args, st))
 	}
+	if strings.HasPrefix(name, "slices.Contains[") || strings.HasPrefix(name, "slices.Index[") {
+		// membership / position of an integer in a slice of known integer constants
+		if v, ok := e.constIntMember(args[0], args[1], st, strings.HasPrefix(name, "slices.Index[")); ok {
+			return ret(v)
+		}
+	}
 	if strings.HasPrefix(name, "(*strings.Builder).") {
 		return ret(e.sbMethod(fr, x, callee.Name(), args, st))
 	}
@@ -509,6 +697,34 @@ func (e *Eval) model(fr *frame, x *ssa.Call, callee *ssa.Function, args []AV, st
 		o := e.newObj(okHash, x, "SHA256")
 		e.setContentFresh(st, o, HashC{})
 		return ret(HashV{O: o})
+	case "crypto/subtle.ConstantTimeCompare", "bytes.Equal":
+		// 1 / true iff the two slices have the same length and content
+		c := e.bytesEqCond(args[0], args[1], st)
+		if name == "bytes.Equal" {
+			if c == nil {
+				return ret(KBool(false))
+			}
+			return ret(BoolV{C: c})
+		}
+		if c == nil {
+			return ret(CInt(0))
+		}
+		return ret(IndV{C: c})
+	case "crypto/subtle.ConstantTimeByteEq", "crypto/subtle.ConstantTimeEq":
+		ia, oka := args[0].(IntV)
+		ib, okb := args[1].(IntV)
+		if oka && okb {
+			if ca, ok := ia.Const(); ok {
+				if cb, ok := ib.Const(); ok {
+					if ca == cb {
+						return ret(CInt(1))
+					}
+					return ret(CInt(0))
+				}
+			}
+			return ret(IndV{C: &Cond{Kind: "intcmp", Op: token.EQL, A: ia, B: ib}})
+		}
+		return ret(IndV{C: &Cond{Kind: "other", Desc: name + " of " + shortAV(args[0]) + ", " + shortAV(args[1])}})
 	case "crypto/sha256.Sum256":
 		b, _ := args[0].(BytesV)
 		return ret(e.digest("SHA256", []BytesV{stripObj(e.resolveBytes(b, st))}))
@@ -519,6 +735,17 @@ func (e *Eval) model(fr *frame, x *ssa.Call, callee *ssa.Function, args []AV, st
 			}
 		}
 		return ret(TopStr("Join of " + shortAV(args[0])))
+	case "strings.Count":
+		if e.P != nil && e.P.countOfTok[x] && e.Ctx != nil {
+			// one less than the number of tokens the tokeniser call yields for the same operands
+			if e.Ctx.TokCount != nil {
+				return ret(CInt(*e.Ctx.TokCount - 1))
+			}
+			if e.Ctx.SizeRange != nil && e.Ctx.SizeKind == "N" {
+				return ret(RangeInt(e.Ctx.SizeRange[0]-1, e.Ctx.SizeRange[1]-1))
+			}
+		}
+		return ret(RangeInt(0, math.MaxInt32))
 	case "strings.Split", "strings.Fields":
 		t := &TokensV{Fn: name, In: args[0], Site: x}
 		if name == "strings.Split" {
@@ -670,6 +897,32 @@ func (e *Eval) model(fr *frame, x *ssa.Call, callee *ssa.Function, args []AV, st
 				n.Pending = x
 			}
 			e.setContent(fr, st, b.Obj, BufC{n})
+		} else if b, ok := args[1].(BytesV); ok && b.WinOf != nil && b.WinConst && st[b.WinOf] != nil {
+			// the target is bytes [off, off+n) of a buffer (`var buf [32]byte; io.ReadFull(r, buf[:n])`)
+			bc, _ := st[b.WinOf].(BufC)
+			cur := bc.B
+			full := name == "io.ReadFull"
+			if !full && len(args) == 3 {
+				if m, ok := args[2].(IntV); ok && m.Kind == ikLin && m.L == K(b.WinN) {
+					full = true
+				}
+			}
+			fresh := cur.Src == "zero" && b.WinOf.Kind == okBuf
+			info.Full, info.Whole, info.Fresh = full, true, fresh
+			done := false
+			if full && cur.LenKnown && cur.Len.Const() && cur.HasVal && !cur.Min && cur.Pending == nil {
+				if l, okw := WriteBytes(cur.Val, cur.Len.A, b.WinOff, b.WinN, SymL("E", 8*b.WinN)); okw {
+					n := cur
+					n.Val, n.Str, n.CopyOf = l, nil, nil
+					n.Src = "read(" + args[0].String() + ")"
+					n.Pending = x
+					e.setContent(fr, st, b.WinOf, BufC{n})
+					done = true
+				}
+			}
+			if !done {
+				e.writeWindow(fr, st, b, nil, false, "partially filled by "+name)
+			}
 		} else {
 			e.escape(fr, st, args[1], name)
 			if b, ok := args[1].(BytesV); !ok || (b.WinOf == nil && b.Param == nil) {
@@ -699,6 +952,9 @@ func (e *Eval) model(fr *frame, x *ssa.Call, callee *ssa.Function, args []AV, st
 		return ret(r)
 	case "net/http.Get":
 		return ret(TupleV{ResV{Kind: "http.Response", A: args[0], Site: x}, e.fallible(x, name, st)})
+	case "(*net/http.Client).Get":
+		// a client of the program's own (timeouts, transport): the same request for the same URL
+		return ret(TupleV{ResV{Kind: "http.Response", A: args[1], Site: x}, e.fallible(x, name, st)})
 	case "io/ioutil.ReadAll", "io.ReadAll":
 		if rv, ok := args[0].(ResV); ok && rv.Kind == "http.Body" {
 			b := BytesV{Src: "download", Str: StrV{Kind: skSrc, S: "download", X: rv.A}}
@@ -721,8 +977,29 @@ func (e *Eval) model(fr *frame, x *ssa.Call, callee *ssa.Function, args []AV, st
 			e.setContent(fr, st, rv.O, CellC{KBool(false)})
 		}
 		return ret(e.fallible(x, name, st))
+	case "(*bytes.Buffer).Bytes", "(*bytes.Buffer).String":
+		if rv, ok := args[0].(ResV); ok && rv.Kind == "bytes.Buffer" && rv.O != nil {
+			if c, ok := st[rv.O].(CellC); ok {
+				if r, ok := c.V.(RenderedV); ok {
+					return ret(r)
+				}
+			}
+		}
+		return ret(e.topOf(x.Type(), "content of a buffer"))
+	case "(*bytes.Buffer).Len", "(*bytes.Buffer).Cap":
+		return ret(RangeInt(0, math.MaxInt32))
+	case "os.WriteFile", "io/ioutil.WriteFile":
+		return ret(e.fallible(x, name, st))
 	case "(*html/template.Template).Execute", "(*text/template.Template).Execute":
-		if rv, ok := args[1].(ResV); ok && rv.O != nil {
+		if rv, ok := args[1].(ResV); ok && rv.Kind == "bytes.Buffer" && rv.O != nil {
+			if c, ok := st[rv.O].(CellC); ok {
+				if sv, ok := c.V.(StrV); ok && sv.Kind == skConst && sv.S == "" {
+					e.setContent(fr, st, rv.O, CellC{RenderedV{Buf: rv.O, Exec: x}})
+				} else {
+					e.setContent(fr, st, rv.O, CellC{CStr("other")})
+				}
+			}
+		} else if rv, ok := args[1].(ResV); ok && rv.O != nil {
 			e.setContent(fr, st, rv.O, CellC{KBool(true)})
 		}
 		if len(args) > 2 {
@@ -766,6 +1043,9 @@ func (e *Eval) model(fr *frame, x *ssa.Call, callee *ssa.Function, args []AV, st
 	if !isReadOnly(name) {
 		for _, a := range args {
 			e.escape(fr, st, a, "passed to "+name)
+			if rv, ok := a.(ResV); ok && rv.Kind == "bytes.Buffer" && rv.O != nil {
+				e.setContent(fr, st, rv.O, CellC{CStr("other")})
+			}
 		}
 	}
 	if name == "log.Fatal" || name == "log.Fatalf" || name == "log.Fatalln" || name == "os.Exit" || name == "log.Panic" || name == "log.Panicf" || name == "log.Panicln" {
@@ -1154,13 +1434,18 @@ func (e *Eval) bigMethod(fr *frame, x *ssa.Call, m string, args []AV, st State) 
 		} else if b.Param != nil {
 			e.event("F4", Violated, x, "FillBytes into caller-owned slice %s", b.Param.Name())
 		}
-		if b.WinOf != nil {
-			e.setContent(fr, st, b.WinOf, topContent(b.WinOf, "FillBytes into a sub-slice"))
+		if b.Obj == nil && b.WinOf != nil {
+			fits := okl && okw && cur.LenKnown && cur.Len.Const() && w <= 8*cur.Len.A
+			e.writeWindow(fr, st, b, l, fits, "FillBytes")
 		}
 		if b.Obj == nil && b.WinOf == nil && b.Param == nil {
 			e.clobber(fr, st, "FillBytes into a slice that is not resolved", okBuf, okCell)
 		}
 		return args[1]
+	case "Bits":
+		if p, ok := args[0].(PtrV); ok && p.O != nil && p.O.Kind == okBig {
+			return LimbsV{Of: p.O}
+		}
 	case "BitLen":
 		c := get(0)
 		if c.Kind == bkConst {
